@@ -256,6 +256,12 @@ pub fn profile_for(prop: &str, cancelable: bool, rng: &mut Rng) -> Profile {
         "C02" | "C03" | "C04" | "C05" | "C06" | "C11" | "C16" | "C17" | "C18" => 2,
         _ => 0,
     };
+    // events built some operations before they are attached
+    w.prepevent = match prop {
+        "C18" => 8,
+        "C06" | "C01" | "C02" | "C10" | "C17" => 2,
+        _ => 0,
+    };
     pf.w = w;
     pf
 }
